@@ -193,10 +193,21 @@ def load_prop(prop: str):
 
 def run_rules(mod, ctx: Ctx, only: Optional[set[str]] = None) -> None:
     ctx.keep_names = helper_names_in(mod, ctx.repo)
+    if os.environ.get("SA_NO_NAMES") != "1" and not getattr(ctx.repo, "_names_restored", False):
+        from .names import restore_names
+
+        renamed = restore_names(ctx.repo)
+        ctx.repo._names_restored = True
+        if renamed:
+            ctx.note("local-name recovery (sa/names.py): locals of " + str(len(renamed)) + " edited functions renamed back to the reviewed names")
     if os.environ.get("SA_NO_INLINE") != "1" and not getattr(ctx.repo, "_normalised", False):
+        from .canon import canon_repo
         from .inline import normalise_repo
 
+        n_canon = canon_repo(ctx.repo)
         rep = normalise_repo(ctx.repo, ctx.keep_names)
+        n_canon += canon_repo(ctx.repo)
+        ctx.note(f"canonical statement forms (sa/canon.py): {n_canon} rewrites (return temporaries, negated tests with else, else after an exiting branch)")
         ctx.repo._normalised = True
         ctx.R = Resolver(ctx.repo)
         ctx.normalisation = rep
